@@ -63,6 +63,11 @@ class InjectedMemoryError(MemoryError):
     pass
 
 
+class SimStepCap(Exception):
+    """Raised by the simulator to end a run that exceeded its step budget (runs are
+    bounded; a capped run is truncated, never a violation)."""
+
+
 def _payload(kind, tag):
     if kind == "sigint":
         return KeyboardInterrupt(f"injected:{tag}")
@@ -207,6 +212,9 @@ class Sim:
         self._line_seen = 0
         self._in_update = False
         self.create_attempts = 0
+        self.max_updates = scn.get("max_updates", 400)
+        self.max_screen = scn.get("max_screen_iters", 20000)
+        self.total_screen = 0
         self.psi_init_hook = None
         self.stub_state = {}
 
@@ -519,6 +527,7 @@ class Sim:
             rec["A_new"] = np.array(A, copy=True)
             rec["kernel_out"] = np.array(solver.new_A_induced, copy=True)
             rec["err"] = err
+            sim.total_screen += 1
             if cur is not None:
                 cur["n_screen"] += 1
                 cur["attempts_this_iter"] = 0
@@ -546,6 +555,9 @@ class Sim:
             st = sim.stage
             step = int(state["step"])
             n = sim.n_started[st]
+            if sim.n_started["T"] + sim.n_started["S"] >= sim.max_updates or sim.total_screen > sim.max_screen:
+                h.probe("step_cap")
+                raise SimStepCap(f"step budget exhausted ({sim.n_started}, {sim.total_screen} screening iterations)")
             sim.n_started[st] += 1
             cur = {
                 "stage": st,
@@ -726,6 +738,10 @@ class Sim:
                 raise
             except HarnessError:
                 raise
+            except SimStepCap as e:
+                h.outcome = "capped"
+                h.exc = ("SimStepCap", str(e)[:200])
+                h.exc_obj = e
             except BaseException as e:
                 h.outcome = "raised:" + type(e).__name__
                 h.exc = (type(e).__name__, str(e)[:200])
